@@ -999,6 +999,53 @@ func (fc *FnCtx) alloc(x *ssa.Alloc) {
 		fc.store(fc.cur, loc, fc.zero(el))
 	}
 	fc.vals[x] = v
+	if isPrivateCell(x) {
+		fc.privateCells = append(fc.privateCells, loc)
+	}
+}
+
+// isPrivateCell: a local variable that lives in a heap cell only because a closure of this function captures it,
+// where the closure is only deferred or called directly: no other code ever holds the cell's address, so a call to
+// unknown code cannot change it.
+func isPrivateCell(x *ssa.Alloc) bool {
+	if x.Referrers() == nil {
+		return false
+	}
+	for _, r := range *x.Referrers() {
+		switch u := r.(type) {
+		case *ssa.Store:
+			if u.Addr != x {
+				return false
+			}
+		case *ssa.UnOp:
+			if u.Op != token.MUL {
+				return false
+			}
+		case *ssa.DebugRef:
+		case *ssa.MakeClosure:
+			if u.Referrers() == nil {
+				return false
+			}
+			for _, cr := range *u.Referrers() {
+				switch c := cr.(type) {
+				case *ssa.Defer:
+					if c.Call.Value != u {
+						return false
+					}
+				case *ssa.Call:
+					if c.Call.Value != u {
+						return false
+					}
+				case *ssa.DebugRef:
+				default:
+					return false
+				}
+			}
+		default:
+			return false
+		}
+	}
+	return true
 }
 
 func (fc *FnCtx) fieldAddr(x *ssa.FieldAddr) {
